@@ -47,4 +47,7 @@ Anchors ==
   /\ \A y \in 1899..10010 : LET e == Easter(y) IN
         Weekday(e) = 6 /\ e >= DaysFromCivil(y, 3, 22) /\ e <= DaysFromCivil(y, 4, 25)
 ASSUME Anchors
+\* the thorough window: every day of the supported range 1900-01-01 .. 9999-12-31 and a year around it
+LoDef == -25567 - 366
+HiDef == 2932897 + 366
 =============================================================================
